@@ -63,6 +63,7 @@ var assumptionText = map[string]string{
 	"A-BUF":    "bytes.Buffer (Read, ReadString, Bytes, Len, Reset, NewBuffer), bytes.IndexByte, strings.Join/Index, hex.EncodeToString behave as documented",
 	"A-POOL":   "bytebufferpool.Get returns an exclusively owned empty buffer; ByteBuffer.Write/WriteString/WriteByte append and never fail; after Put the buffer content is arbitrary",
 	"A-FMT":    "fmt.Errorf/errors.New return non-nil errors and do not panic",
+	"A-LOG":    "calls into the repository's logger package (other than Fatal/Panic) and fmt/log print functions do not change any value the library computes and do not panic",
 	"A-ERRIS":  "errors.Is(e, io.EOF) holds iff e or the error it wraps (packetOptError.Unwrap) is io.EOF",
 	"A-TABLES": "the layout tables under specs/layouts are faithful transcriptions of the protocol documents in doc/ (they are the specification)",
 	"A-T0":     "the byte-sequence theory T0 (specs/theory/T0.smt2); 18 of its axioms are proved in Lean over List (Fin 256), the others are assumed",
